@@ -1,6 +1,8 @@
 package fzf
 
 import (
+	"regexp"
+
 	"github.com/junegunn/fzf/src/algo"
 	"github.com/junegunn/fzf/src/util"
 	"github.com/junegunn/fzf/src/zzv"
@@ -358,4 +360,40 @@ func zzH_C10_nth() {
 	if r2 != nil {
 		zzv.Assert("offset-in-full-line-after-change", len(offs2) == 1 && int(offs2[0][0]) == 2*(n2-1) && int(offs2[0][1]) == 2*(n2-1)+1)
 	}
+}
+
+func init() {
+	zzHarnesses["zzH_C10_re"] = zzH_C10_re
+}
+
+var zzReAlphabet = []rune{'a', 'é', ':', ',', '한'}
+
+// H10.re: regular-expression delimiter. The line is built by concrete choices (every line over the
+// alphabet up to the bound is explored), so Go's regexp runs natively on it; fields must partition
+// the line with character (not byte) offsets, and every field but the last ends with a delimiter.
+func zzH_C10_re() {
+	n := zzv.Choose(0, zzv.CfgInt("nmax"))
+	runes := make([]rune, n)
+	for i := range runes {
+		runes[i] = zzReAlphabet[zzv.Choose(0, len(zzReAlphabet)-1)]
+	}
+	line := string(runes)
+	delim := Delimiter{regex: regexp.MustCompile(zzv.CfgStr("regex"))}
+	tokens := Tokenize(line, delim)
+	zzv.Reach("called")
+	zzv.Observe("ntok", len(tokens))
+	zzv.Assert("partition-with-character-offsets", zzCheckPartition(tokens, runes, 0))
+	shape := true
+	for i, t := range tokens {
+		tr := zzTokRunes(t)
+		if len(tr) == 0 {
+			shape = false
+			continue
+		}
+		last := tr[len(tr)-1]
+		if i < len(tokens)-1 && last != ':' && last != ',' {
+			shape = false
+		}
+	}
+	zzv.Assert("fields-end-with-delimiter", shape)
 }
